@@ -140,10 +140,6 @@ struct World {
     void start(const CtSpec& c);         // initialize library with CT settings
     int addDomain(const std::vector<int>& sizes1);   // sizes for var 1..K
     int addForest(const FSpec& s);       // returns index or -1 when forest::create refuses
-    // known finding KF-identity-relation-size1-variable: identity-reduced relation forests over a domain with
-    // a variable of size 1 are not created (counted in excludedIdent1) unless the program is strict
-    bool strictWorld = false;
-    int excludedIdent1 = 0;
     void release(int slot);
     void setSlot(int slot, int f, MEDDLY::dd_edge* e, const Table& T);
     void stop();                         // delete edges, cleanup library
